@@ -663,7 +663,7 @@ class _SteppedPatternBuilder(Generic[TResult]):
             if not result.success:
                 return result
             # Check that we've used up all the text
-            if value_cursor.current != _ValueCursor._NUL:
+            if value_cursor.index < value_cursor.length:
                 return ParseResult[TResult]._extra_value_characters(value_cursor, value_cursor.remainder)
             return result
 
